@@ -31,12 +31,15 @@ structure RefView where
 deriving Repr, DecidableEq
 
 /-- the reference with the bookkeeping the usage protocol talks about: the committed view, whether
-a unit of work is open, the leaf positions compacted away so far (`G`) and the leaf count of the
-largest compaction cutoff so far (`C`) -/
+a unit of work is open (`dirty`), whether a leaf has been appended in it (`app`), the leaf
+positions compacted away so far (`G`) and the leaf count of the largest compaction cutoff so far
+(`C`) -/
 structure RefSt where
   cur : RefView := {}
   saved : RefView := {}
   dirty : Bool := false
+  /-- a leaf was pushed since the last `sync` / `discard` -/
+  app : Bool := false
   G : List Nat := []
   C : Nat := 0
 deriving Repr, DecidableEq
@@ -45,27 +48,30 @@ namespace RefSt
 
 /-- the reference semantics of the operations -/
 def step (r : RefSt) : HOp → RefSt
-  | .push e => { r with cur := { es := r.cur.es ++ [e], U := r.cur.U ++ [mmr r.cur.es.length] }, dirty := true }
+  | .push e => { r with cur := { es := r.cur.es ++ [e], U := r.cur.U ++ [mmr r.cur.es.length] }, dirty := true,
+                        app := true }
   | .prune p => { r with cur := { r.cur with U := r.cur.U.filter (· != p) }, dirty := true }
   | .rewind N' rm =>
     { r with cur := { es := r.cur.es.take N', U := r.cur.U.filter (· < mmr N') ++ rm.map (· - 1) },
              dirty := true }
-  | .sync => { r with saved := r.cur, dirty := false }
-  | .discard => { r with cur := r.saved, dirty := false }
+  | .sync => { r with saved := r.cur, dirty := false, app := false }
+  | .discard => { r with cur := r.saved, dirty := false, app := false }
   | .compact K rm =>
     { r with G := r.G ++ (List.range (mmr K)).filter (fun q =>
                isLeaf q && !r.cur.U.elem q && !rm.elem (q + 1) && !r.G.elem q),
              C := max r.C K }
   | .reopen => r
 
-/-- **the usage protocol**, one operation: sizes stay below `2^64 − 64`; `rewind` only from a
-synced state, to a boundary not below the largest compaction cutoff and not above the current
-size, re-adding only leaf positions of the smaller MMR that no compaction has removed;
-compaction and reopen only from a synced state, the cutoff a boundary inside the MMR -/
+/-- **the usage protocol**, one operation: sizes stay below `2^64 − 64`; `rewind` only before the
+first append of a unit of work (so several rewinds in a row – the chain rewinds block by block –
+and rewinds after removals are allowed), to a boundary not below the largest compaction cutoff
+and not above the current size, re-adding only leaf positions of the smaller MMR that no
+compaction has removed; compaction and reopen only from a synced state, the cutoff a boundary
+inside the MMR -/
 def ok (r : RefSt) : HOp → Prop
   | .push _ => mmr (r.cur.es.length + 1) + 64 < 2 ^ 64
   | .prune _ => True
-  | .rewind N' rm => r.dirty = false ∧ r.C ≤ N' ∧ N' ≤ r.cur.es.length ∧
+  | .rewind N' rm => r.app = false ∧ r.C ≤ N' ∧ N' ≤ r.cur.es.length ∧
       ∀ x ∈ rm, 1 ≤ x ∧ x ≤ mmr N' ∧ isLeaf (x - 1) = true ∧ (x - 1) ∉ r.G
   | .sync => True
   | .discard => True
@@ -206,6 +212,18 @@ structure HInv {H : Type} (hf : HashFn Bytes H) (p : PM H) (r : RefSt) : Prop wh
       (refData (leafFn r.saved.es)) df0 ∧
     Agree hf { b := b0, size := mmr r.saved.es.length } r.saved r.G r.C df0 ∧
     Backend.InUnit b0 df0 p.b ∧ (r.dirty = false → p.b = b0 ∧ r.cur = r.saved)
+  /-- as long as the unit has appended nothing, both buffers are empty -/
+  nobuf : r.app = false → p.b.hashFile.buffer = [] ∧ ∀ df, p.b.dataFile = .fixed df → df.buffer = []
+
+/-- a synced backend has empty buffers -/
+theorem Synced.nobuf {H : Type} {b : Backend H} {N : Nat} {ref : Nat → H} {dref : Nat → Bytes}
+    {df : AOF Bytes} (h : Synced b N ref dref df) :
+    b.hashFile.buffer = [] ∧ ∀ df', b.dataFile = .fixed df' → df'.buffer = [] := by
+  refine ⟨h.hashClean.1, ?_⟩
+  intro df' hd
+  rw [h.data] at hd
+  injection hd with e
+  rw [← e]; exact h.dataClean.1
 
 theorem agree_of_synced {H : Type} {hf : HashFn Bytes H} {b : Backend H} {v : RefView} {G : List Nat}
     {C : Nat} {df : AOF Bytes}
@@ -222,14 +240,14 @@ theorem hinv_of_synced {H : Type} {hf : HashFn Bytes H} {b : Backend H} {v : Ref
     (h : Synced b v.es.length (refHash hf (leafFn v.es)) (refData (leafFn v.es)) df)
     (ha : Agree hf { b := b, size := mmr v.es.length } v G C df) :
     HInv hf { b := b, size := mmr v.es.length } { cur := v, saved := v, dirty := false, G := G, C := C } :=
-  ⟨⟨df, ha⟩, ⟨b, df, h, ha, Backend.inUnit_refl h.cleanFixed, fun _ => ⟨rfl, rfl⟩⟩⟩
+  ⟨⟨df, ha⟩, ⟨b, df, h, ha, Backend.inUnit_refl h.cleanFixed, fun _ => ⟨rfl, rfl⟩⟩, fun _ => h.nobuf⟩
 
 theorem pm_eta {H : Type} (p : PM H) : p = { b := p.b, size := p.size } := by cases p; rfl
 
 /-- **every operation the protocol allows preserves the invariant** -/
 theorem hinv_step {H : Type} (el : Bytes → Option Nat) (hf : HashFn Bytes H) (p : PM H) (r : RefSt)
     (h : HInv hf p r) (op : HOp) (hok : r.ok op) : HInv hf (bstep el hf p op) (r.step op) := by
-  obtain ⟨⟨df, hcur⟩, ⟨b0, df0, hs0, ha0, hunit, hclean⟩⟩ := h
+  obtain ⟨⟨df, hcur⟩, ⟨b0, df0, hs0, ha0, hunit, hclean⟩, hnb⟩ := h
   cases op with
   | push e =>
     have hb : mmr (r.cur.es.length + 1) + 64 < 2 ^ 64 := hok
@@ -245,7 +263,8 @@ theorem hinv_step {H : Type} (el : Bytes → Option Nat) (hf : HashFn Bytes H) (
         subst hsz
         simp only [bstep, hp1, Option.getD_some]
     rw [hstep]
-    refine ⟨⟨df.append e, ⟨?_, ?_, ?_, ?_, ?_, ?_⟩⟩, ⟨b0, df0, hs0, ha0, ?_, ?_⟩⟩
+    refine ⟨⟨df.append e, ⟨?_, ?_, ?_, ?_, ?_, ?_⟩⟩, ⟨b0, df0, hs0, ha0, ?_, ?_⟩,
+      fun hd => absurd hd (by simp [RefSt.step])⟩
     · show Live b' (r.cur.es ++ [e]).length _ _ _
       rw [List.length_append, List.length_singleton]; exact hp3
     · show mmr (r.cur.es.length + 1) = mmr (r.cur.es ++ [e]).length
@@ -275,14 +294,15 @@ theorem hinv_step {H : Type} (el : Bytes → Option Nat) (hf : HashFn Bytes H) (
     have hkey : ∃ b', bstep el hf p (.prune pos) = { b := b', size := p.size } ∧
         Live b' r.cur.es.length (refHash hf (leafFn r.cur.es)) (refData (leafFn r.cur.es)) df ∧
         (∀ q, (q + 1) ∈ b'.leafSet.bitmap ↔ (q ∈ r.cur.U ∧ q ≠ pos)) ∧
-        b'.pruneList = p.b.pruneList ∧ Backend.InUnit b0 df0 b' := by
+        b'.pruneList = p.b.pruneList ∧ Backend.InUnit b0 df0 b' ∧
+        b'.hashFile = p.b.hashFile ∧ b'.dataFile = p.b.dataFile := by
       unfold bstep PM.prune
       by_cases hleaf : isLeaf pos = true
       · simp only [hleaf, Bool.not_true, Bool.false_eq_true, if_false]
         by_cases hin : (pos + 1) ∈ p.b.leafSet.bitmap
         · rw [(hcur.live.read_unspent el pos hin).1]
           refine ⟨p.b.remove pos, rfl, hcur.live.remove pos, ?_, rfl,
-            Backend.inUnit_apply hunit (.remove pos) trivial⟩
+            Backend.inUnit_apply hunit (.remove pos) trivial, rfl, rfl⟩
           intro q
           show (q + 1) ∈ Bm.remove p.b.leafSet.bitmap (1 + pos) ↔ _
           rw [mem_remove, hcur.unspent q]
@@ -297,7 +317,7 @@ theorem hinv_step {H : Type} (el : Bytes → Option Nat) (hf : HashFn Bytes H) (
               | true => exact absurd (Synced.includes_iff.1 hc) hin
             simp [hleaf, this]
           rw [hnone]
-          refine ⟨p.b, pm_eta p, hcur.live, ?_, rfl, hunit⟩
+          refine ⟨p.b, pm_eta p, hcur.live, ?_, rfl, hunit, rfl, rfl⟩
           intro q
           rw [hcur.unspent q]
           constructor
@@ -306,7 +326,7 @@ theorem hinv_step {H : Type} (el : Bytes → Option Nat) (hf : HashFn Bytes H) (
           · exact fun h => h.1
       · have hleaf' : isLeaf pos = false := by simpa using hleaf
         simp only [hleaf', Bool.not_false, if_true]
-        refine ⟨p.b, pm_eta p, hcur.live, ?_, rfl, hunit⟩
+        refine ⟨p.b, pm_eta p, hcur.live, ?_, rfl, hunit, rfl, rfl⟩
         intro q
         rw [hcur.unspent q]
         constructor
@@ -316,9 +336,13 @@ theorem hinv_step {H : Type} (el : Bytes → Option Nat) (hf : HashFn Bytes H) (
           rw [Nat.add_sub_cancel] at this
           rw [(isLeaf_iff _).2 this] at hleaf'; exact absurd hleaf' (by simp)
         · exact fun h => h.1
-    obtain ⟨b', hb1, hb2, hb3, hb4, hb5⟩ := hkey
+    obtain ⟨b', hb1, hb2, hb3, hb4, hb5, hb6, hb7⟩ := hkey
     rw [hb1]
-    refine ⟨⟨df, ⟨hb2, hcur.size, ?_, ?_, ?_, hcur.cle⟩⟩, ⟨b0, df0, hs0, ha0, hb5, ?_⟩⟩
+    refine ⟨⟨df, ⟨hb2, hcur.size, ?_, ?_, ?_, hcur.cle⟩⟩, ⟨b0, df0, hs0, ha0, hb5, ?_⟩, ?_⟩
+    rotate_right
+    · intro ha
+      show b'.hashFile.buffer = [] ∧ ∀ df, b'.dataFile = .fixed df → df.buffer = []
+      rw [hb6, hb7]; exact hnb ha
     · intro q
       show _ ↔ q ∈ r.cur.U.filter (· != pos)
       rw [hb3 q, List.mem_filter]; simp
@@ -328,26 +352,34 @@ theorem hinv_step {H : Type} (el : Bytes → Option Nat) (hf : HashFn Bytes H) (
       rw [hb4]; exact hcur.rootsC
     · intro hd; exact absurd hd (by simp [RefSt.step])
   | rewind N' rm =>
-    obtain ⟨hd, hC, hN, hrm⟩ := hok
-    obtain ⟨hpb, hcs⟩ := hclean hd
-    have hs0' := hs0
-    have ha0' := ha0
-    rw [← hcs] at hs0' ha0'
-    have hroots : ∀ x ∈ b0.pruneList.bitmap, x ≤ mmr N' :=
-      fun x hx => Nat.le_trans (ha0.rootsC x hx) (mmr_le_mmr hC)
+    obtain ⟨happ, hC, hN, hrm⟩ := hok
+    obtain ⟨hb1, hb2⟩ := hnb happ
+    have hb2' := hb2 df hcur.live.data
+    have hroots : ∀ x ∈ p.b.pruneList.bitmap, x ≤ mmr N' :=
+      fun x hx => Nat.le_trans (hcur.rootsC x hx) (mmr_le_mmr hC)
     have hrm' : ∀ x ∈ rm, 1 ≤ x ∧ x ≤ mmr N' ∧ height (x - 1) = 0 ∧
-        ¬ PrunedBy b0.pruneList.bitmap (x - 1) := by
+        ¬ PrunedBy p.b.pruneList.bitmap (x - 1) := by
       intro x hx
       obtain ⟨a1, a2, a3, a4⟩ := hrm x hx
       have hl := (isLeaf_iff _).1 a3
-      exact ⟨a1, a2, hl, fun hp => a4 ((ha0.pruned _ hl).1 hp)⟩
-    obtain ⟨df', hl, hw, hmem⟩ := hs0'.rewind hN hroots rm hrm'
-    have hstep : bstep el hf p (.rewind N' rm) = { b := b0.rewind (mmr N') rm, size := mmr N' } := by
+      exact ⟨a1, a2, hl, fun hp => a4 ((hcur.pruned _ hl).1 hp)⟩
+    obtain ⟨df', hl, hbuf1, hbuf2, hw, hmem⟩ := hcur.live.rewind hb1 hb2' hN hroots rm hrm'
+    have hstep : bstep el hf p (.rewind N' rm) = { b := p.b.rewind (mmr N') rm, size := mmr N' } := by
       show PM.rewind p (mmr N') rm = _
-      simp only [PM.rewind, roundUp_mmr, hpb]
+      simp only [PM.rewind, roundUp_mmr]
     have hlen : (r.cur.es.take N').length = N' := by rw [List.length_take]; omega
+    -- the file positions lie inside the files the unit started from
+    have hw0 : (Backend.Op.rewind (mmr N') rm).Within b0 df0 := by
+      obtain ⟨dfx, hdx, hdu⟩ := hunit.data
+      have hdd : dfx = df := by
+        rw [hcur.live.data] at hdx
+        injection hdx with e; exact e.symm
+      subst hdd
+      show _ ≤ _ ∧ _ ≤ _
+      rw [← hunit.pl, ← hunit.hash.1, ← hdu.1]
+      exact hw
     rw [hstep]
-    refine ⟨⟨df', ⟨?_, ?_, ?_, ha0.pruned, ha0.rootsC, ?_⟩⟩, ⟨b0, df0, hs0, ha0, ?_, ?_⟩⟩
+    refine ⟨⟨df', ⟨?_, ?_, ?_, hcur.pruned, hcur.rootsC, ?_⟩⟩, ⟨b0, df0, hs0, ha0, ?_, ?_⟩, ?_⟩
     · show Live _ (r.cur.es.take N').length _ _ _
       rw [hlen]; exact hl.congr (leafFn_take r.cur.es N')
     · show mmr N' = mmr (r.cur.es.take N').length
@@ -355,7 +387,7 @@ theorem hinv_step {H : Type} (el : Bytes → Option Nat) (hf : HashFn Bytes H) (
     · intro q
       show _ ↔ q ∈ r.cur.U.filter (· < mmr N') ++ rm.map (· - 1)
       rw [hmem, List.mem_append, List.mem_filter, mem_pred (fun y hy => (hrm y hy).1),
-        (ha0'.unspent q)]
+        (hcur.unspent q)]
       simp only [decide_eq_true_eq]
       constructor
       · rintro (⟨h1, h2⟩ | h)
@@ -366,9 +398,14 @@ theorem hinv_step {H : Type} (el : Bytes → Option Nat) (hf : HashFn Bytes H) (
         · exact Or.inr h
     · show r.C ≤ (r.cur.es.take N').length
       rw [hlen]; exact hC
-    · have := Backend.inUnit_apply (Backend.inUnit_refl hs0.cleanFixed) (.rewind (mmr N') rm) hw
-      exact this
+    · exact Backend.inUnit_apply hunit (.rewind (mmr N') rm) hw0
     · intro hd'; exact absurd hd' (by simp [RefSt.step])
+    · intro _
+      refine ⟨hbuf1, ?_⟩
+      intro dfx hdx
+      rw [hl.data] at hdx
+      injection hdx with e
+      rw [← e]; exact hbuf2
   | sync =>
     have hsy := hcur.live.sync
     have ha : Agree hf { b := p.b.sync, size := mmr r.cur.es.length } r.cur r.G r.C df.flush :=
@@ -377,14 +414,16 @@ theorem hinv_step {H : Type} (el : Bytes → Option Nat) (hf : HashFn Bytes H) (
       show ({ p with b := p.b.sync } : PM H) = _
       rw [← hcur.size]
     rw [hstep]
-    exact ⟨⟨_, ha⟩, ⟨p.b.sync, _, hsy, ha, Backend.inUnit_refl hsy.cleanFixed, fun _ => ⟨rfl, rfl⟩⟩⟩
+    exact ⟨⟨_, ha⟩, ⟨p.b.sync, _, hsy, ha, Backend.inUnit_refl hsy.cleanFixed, fun _ => ⟨rfl, rfl⟩⟩,
+      fun _ => hsy.nobuf⟩
   | discard =>
     have hdisc := Backend.discard_of_inUnit hs0.cleanFixed hunit
     have hstep : bstep el hf p .discard = { b := b0, size := mmr r.saved.es.length } := by
       show ({ b := p.b.discard, size := p.b.discard.unprunedSize } : PM H) = _
       rw [hdisc, hs0.unprunedSize]
     rw [hstep]
-    exact ⟨⟨_, ha0⟩, ⟨b0, df0, hs0, ha0, Backend.inUnit_refl hs0.cleanFixed, fun _ => ⟨rfl, rfl⟩⟩⟩
+    exact ⟨⟨_, ha0⟩, ⟨b0, df0, hs0, ha0, Backend.inUnit_refl hs0.cleanFixed, fun _ => ⟨rfl, rfl⟩⟩,
+      fun _ => hs0.nobuf⟩
   | compact K rm =>
     obtain ⟨hd, hK⟩ := hok
     obtain ⟨hpb, hcs⟩ := hclean hd
@@ -426,7 +465,8 @@ theorem hinv_step {H : Type} (el : Bytes → Option Nat) (hf : HashFn Bytes H) (
         · exact Or.inl h
         · exact Or.inr ⟨by omega, by omega, h3, h4, rfl, h6⟩
     rw [hstep]
-    refine ⟨⟨df', ?_⟩, ⟨_, df', hs', ha, Backend.inUnit_refl hs'.cleanFixed, fun _ => ⟨rfl, hcs⟩⟩⟩
+    refine ⟨⟨df', ?_⟩, ⟨_, df', hs', ha, Backend.inUnit_refl hs'.cleanFixed, fun _ => ⟨rfl, hcs⟩⟩,
+      fun _ => hs'.nobuf⟩
     show Agree hf _ r.cur _ _ _
     rw [hcs]; exact ha
   | reopen =>
@@ -437,7 +477,7 @@ theorem hinv_step {H : Type} (el : Bytes → Option Nat) (hf : HashFn Bytes H) (
       show ({ b := p.b.reopen el, size := (p.b.reopen el).unprunedSize } : PM H) = _
       rw [hpb, hro, hs0.unprunedSize, ← hcs, ← hcur.size, ← hpb]
     rw [hstep]
-    exact ⟨⟨df, hcur⟩, ⟨b0, df0, hs0, ha0, hunit, hclean⟩⟩
+    exact ⟨⟨df, hcur⟩, ⟨b0, df0, hs0, ha0, hunit, hclean⟩, hnb⟩
 
 /-! ### units that only remove leaves, and the rewind that undoes them -/
 
@@ -550,7 +590,7 @@ theorem hinv_init {H : Type} (hf : HashFn Bytes H) : HInv hf ({} : PM H) ({} : R
     show ({ b := {}, size := 0 } : PM H) = _
     rw [show ({} : RefView).es.length = 0 from rfl, mmr_zero]
   rw [e]
-  exact ⟨⟨{}, ha⟩, ⟨{}, {}, hs, ha, Backend.inUnit_refl hs.cleanFixed, fun _ => ⟨rfl, rfl⟩⟩⟩
+  exact ⟨⟨{}, ha⟩, ⟨{}, {}, hs, ha, Backend.inUnit_refl hs.cleanFixed, fun _ => ⟨rfl, rfl⟩⟩, fun _ => hs.nobuf⟩
 
 /-- **the invariant holds after every history the protocol allows** -/
 theorem hinv_run {H : Type} (el : Bytes → Option Nat) (hf : HashFn Bytes H) :
@@ -595,7 +635,7 @@ theorem hinv_observables {H : Type} (el : Bytes → Option Nat) (hf : HashFn Byt
       p.b.getFromFile a = some (refHash hf (leafFn r.cur.es) a)) ∧
     (∀ pk ∈ peaks (mmr r.cur.es.length),
       p.b.getPeakFromFile pk = some (refHash hf (leafFn r.cur.es) pk)) := by
-  obtain ⟨⟨df, hc⟩, ⟨b0, df0, hs0, _, _, hclean⟩⟩ := h
+  obtain ⟨⟨df, hc⟩, ⟨b0, df0, hs0, _, _, hclean⟩, _⟩ := h
   have hl := hc.live
   refine ⟨hc.size, fun hd => by
     obtain ⟨e1, e2⟩ := hclean hd
